@@ -345,12 +345,12 @@ def run(rep, tier_, rng):
     TIER[0] = tier_
     for k in K:
         if k.precs is PRECS_INT_QUICK and tier_ == "thorough":
-            k.precs = [20, 53, 100, 100, 200]
-    run_kinds(rep, K, tier_, rng, n_quick=int(os.environ.get('VERIF_B3_N', 36)), n_thorough=420, precs_quick=PRECS_QUICK, precs_thorough=PRECS_THOROUGH,
+            k.precs = [20, 53, 53, 100, 100, 200]
+    run_kinds(rep, K, tier_, rng, n_quick=int(os.environ.get('VERIF_B3_N', 36)), n_thorough=170, precs_quick=PRECS_QUICK, precs_thorough=PRECS_THOROUGH,
               assumptions=ASSUMPTIONS, rule=RULE, not_decided=NOT_DECIDED,
               params={"sentence_timeout": 100 if tier_ == "quick" else 400, "single_timeout": 100 if tier_ == "quick" else 400,
                       "batch": 6, "ladder": [1]},
-              budget_quick=120)
+              budget_quick=105)
 
 
 def replay(rep, path):
